@@ -4,6 +4,7 @@
 //!   vfmt render  <rows-file>
 //!   vfmt mutants <list-file> <out-dir> <seed> <per-file>
 //!   vfmt one     <file> <width>
+//!   vfmt explain <jobs.ndjson>        (jobs: {file, origin, w, law: comments|idem|parses})
 use std::collections::{HashMap, HashSet};
 use std::io::Write;
 use std::panic::{AssertUnwindSafe, catch_unwind};
@@ -123,6 +124,8 @@ struct TreeFacts {
     arm_commas: Vec<u32>,
     /// comment start offset -> (kind of the parent node)
     comment_parent: HashMap<u32, String>,
+    /// code token start offset -> kind of the parent node
+    token_parent: HashMap<u32, String>,
 }
 
 fn is_blocklike(kind: TokenKind) -> bool {
@@ -174,6 +177,7 @@ fn walk(node: &SyntaxNode, facts: &mut TreeFacts, in_use: bool) {
                     facts.comment_parent.insert(t.offset().value(), format!("{:?}", kind));
                 }
                 if !k.is_trivia() {
+                    facts.token_parent.insert(t.offset().value(), format!("{:?}", kind));
                     if first_code.is_none() {
                         first_code = Some(k);
                     }
@@ -689,6 +693,135 @@ fn cmd_mutants(args: Vec<String>) {
     );
 }
 
+// ------------------------------------------------------------------------------------------------
+// which changed gap of a mutant makes a law fail (the origin passes it)
+
+fn law_fails(law: &str, text: &str, w: u32) -> Option<bool> {
+    // None: not a valid experiment (input does not parse)
+    match parse_facts(text) {
+        Ok((0, _)) => {}
+        _ => return None,
+    }
+    let out = match format_pipeline(text, w) {
+        Ok(Ok(o)) => o,
+        _ => return Some(true),
+    };
+    let parses = matches!(parse_facts(&out), Ok((0, _)));
+    Some(match law {
+        "comments" => {
+            let mut a = lex_text(text).comments;
+            let mut b = lex_text(&out).comments;
+            a.sort();
+            b.sort();
+            a != b
+        }
+        "parses" => !parses,
+        "idem" => parses && !matches!(format_pipeline(&out, w), Ok(Ok(o2)) if o2 == out),
+        _ => panic!("unknown law"),
+    })
+}
+
+fn gap_shape(g: &str) -> &'static str {
+    if g.contains("//") {
+        "line-comment"
+    } else if g.contains("/*") {
+        "block-comment"
+    } else {
+        match g.matches('\n').count() {
+            0 if g.is_empty() => "none",
+            0 => "space",
+            1 => "newline",
+            _ => "blank-line",
+        }
+    }
+}
+
+fn describe_gap(x: &str, p: &Pieces, g: usize, mutant_gap: &str, origin_gap: &str) -> Value {
+    // x = assemble(p); code token g follows the gap (g == number of tokens: the tail)
+    let lx = lex_text(x);
+    let facts = parse_facts(x).ok().map(|r| r.1).unwrap_or_default();
+    let kind_of = |i: usize| lx.code.get(i).map(|c| c.0.clone()).unwrap_or("EOF".into());
+    let before = kind_of(g);
+    let after = if g > 0 { kind_of(g - 1) } else { "BOF".into() };
+    let before_parent = lx.code.get(g).and_then(|c| facts.token_parent.get(&c.2).cloned()).unwrap_or("-".into());
+    let after_parent = if g > 0 { lx.code.get(g - 1).and_then(|c| facts.token_parent.get(&c.2).cloned()).unwrap_or("-".into()) } else { "-".into() };
+    // parent of the first comment inside the gap, if any
+    let mut comment_parent = "-".to_string();
+    let lo = if g > 0 { lx.code[g - 1].2 } else { 0 };
+    let hi = lx.code.get(g).map(|c| c.2).unwrap_or(x.len() as u32);
+    let mut offs: Vec<&u32> = facts.comment_parent.keys().filter(|o| **o >= lo && **o < hi).collect();
+    offs.sort();
+    if let Some(o) = offs.first() {
+        comment_parent = facts.comment_parent[*o].clone();
+    }
+    let _ = p;
+    json!({"gap": g, "shape": gap_shape(mutant_gap), "was": gap_shape(origin_gap), "before": before, "before_parent": before_parent,
+           "after": after, "after_parent": after_parent, "comment_parent": comment_parent})
+}
+
+fn cmd_explain(args: Vec<String>) {
+    for line in std::fs::read_to_string(&args[0]).expect("jobs").lines() {
+        let job: Value = match serde_json::from_str(line) {
+            Ok(j) => j,
+            Err(_) => continue,
+        };
+        let (file, origin, law) = (job["file"].as_str().unwrap(), job["origin"].as_str().unwrap(), job["law"].as_str().unwrap());
+        let w = job["w"].as_u64().unwrap() as u32;
+        let m = pieces(&std::fs::read_to_string(file).expect("mutant"));
+        let o = pieces(&std::fs::read_to_string(origin).expect("origin"));
+        let mut res = json!({"kind": "explain", "file": file, "origin": origin, "w": w, "law": law, "culprits": [], "how": "none"});
+        if m.toks != o.toks {
+            res["how"] = json!("token sequences differ");
+            println!("{}", res);
+            continue;
+        }
+        let n = o.toks.len();
+        let gap_of = |p: &Pieces, g: usize| if g == n { p.tail.clone() } else { p.gaps[g].clone() };
+        let with_gap = |base: &Pieces, g: usize, v: String| {
+            let mut p = Pieces { toks: base.toks.clone(), gaps: base.gaps.clone(), tail: base.tail.clone() };
+            if g == n { p.tail = v } else { p.gaps[g] = v }
+            p
+        };
+        let changed: Vec<usize> = (0..=n).filter(|&g| gap_of(&m, g) != gap_of(&o, g)).collect();
+        res["changed_gaps"] = json!(changed.len());
+        let origin_text = assemble(&o);
+        if law_fails(law, &origin_text, w) != Some(false) {
+            res["how"] = json!("origin fails too");
+            println!("{}", res);
+            continue;
+        }
+        let mut culprits = Vec::new();
+        for &g in &changed {
+            let p = with_gap(&o, g, gap_of(&m, g));
+            let x = assemble(&p);
+            if law_fails(law, &x, w) == Some(true) {
+                culprits.push(describe_gap(&x, &p, g, &gap_of(&m, g), &gap_of(&o, g)));
+                if culprits.len() >= 8 {
+                    break;
+                }
+            }
+        }
+        if !culprits.is_empty() {
+            res["how"] = json!("single gap");
+        } else {
+            // no single gap reproduces it: shortest failing prefix of the changed gaps
+            let mut p = Pieces { toks: o.toks.clone(), gaps: o.gaps.clone(), tail: o.tail.clone() };
+            for &g in &changed {
+                p = with_gap(&p, g, gap_of(&m, g));
+                let x = assemble(&p);
+                if law_fails(law, &x, w) == Some(true) {
+                    culprits.push(describe_gap(&x, &p, g, &gap_of(&m, g), &gap_of(&o, g)));
+                    res["how"] = json!("combination of gaps (last one of the shortest failing prefix)");
+                    break;
+                }
+            }
+        }
+        res["culprits"] = json!(culprits);
+        println!("{}", res);
+    }
+    println!("{}", json!({"kind": "summary"}));
+}
+
 fn cmd_one(args: Vec<String>) {
     let text = std::fs::read_to_string(&args[0]).expect("file");
     let w: u32 = args.get(1).map(|w| w.parse().unwrap()).unwrap_or(90);
@@ -721,6 +854,7 @@ fn main() {
         "render" => cmd_render(args),
         "mutants" => cmd_mutants(args),
         "one" => cmd_one(args),
+        "explain" => cmd_explain(args),
         _ => {
             eprintln!("unknown sub-command {}", cmd);
             std::process::exit(2);
